@@ -3,6 +3,7 @@ import os, glob
 from lib import Case, hx, doc_case, unhx
 import xmlcanon, docgen
 
+DOC_MODEL = True     # every generated document also runs through the composed Coq model of the whole transform
 RULE = ('generated svgdx documents with root <svg> covering every output-producing feature (generated text with special characters, '
         'tspans, comments incl. _ / __ / debug, CDATA styles, defs, metadata attributes, themes, prologues with trailing white space) and the '
         'repository examples; T_c1(x) is fed back under 2 further random configurations c2 and must succeed and reproduce the bytes; '
